@@ -3,6 +3,7 @@ import BM.Props.C20
 import BM.Spec.More
 import BM.Proofs.CssClean
 import BM.Proofs.Congr
+import BM.Proofs.UrlRelative
 /-
   C07, from the specification's side.  `Spec.conformingDoc` is the decidable description of "a
   well-formed document that uses only elements, attributes and values the policy allows" that the
@@ -227,5 +228,269 @@ example :
     canonicalDoc b!"<a title=\"x\" id=\"1\">1 &lt; 2 <b>t</b></a>" = true ∧
     conformingDoc p (tokenize b!"<a title=\"x\" id=\"1\">1 &lt; 2 <b>t</b></a>") = true ∧
     explicitDoc p (tokenize b!"<a title=\"x\" id=\"1\">1 &lt; 2 <b>t</b></a>") = true := by decide
+
+/-! ### with URL checking -/
+
+/-- attribute handling that is filtering plus the URL pass: no link options, styles, forced attributes,
+    rewriter (`AttrSimple` without `noUrl`) -/
+structure UrlFilter (p : Policy) : Prop where
+  noFollow : p.requireNoFollow = false
+  noFollowFQ : p.requireNoFollowFullyQualifiedLinks = false
+  noReferrer : p.requireNoReferrer = false
+  noReferrerFQ : p.requireNoReferrerFullyQualifiedLinks = false
+  noBlank : p.addTargetBlankToFullyQualifiedLinks = false
+  noStyle : ∀ el, p.hasStylePolicies el = false
+  noCross : p.requireCrossOriginAnonymous = false
+  noSandbox : p.requireSandboxOnIFrame = none
+  noRewriter : p.srcRewriter = none
+
+theorem urlFilter_sanitizeAttrs (p : Policy) (hs : UrlFilter p) (el : Bytes) (attrs : List Attr) (aps : AttrRules) :
+    p.sanitizeAttrs el attrs aps =
+      (let c := attrs.filter fun a => (p.filterAttr el aps false a).isSome
+       if c.isEmpty then some c
+       else if linkable el && p.requireParseableURLs then mapMOpt (p.urlPassAttr el) c else some c) := by
+  unfold Policy.sanitizeAttrs
+  split
+  · rename_i h; simp [List.isEmpty_iff.mp h]
+  · simp only [hs.noStyle el, filterMap_eq_filter]
+    split
+    · rename_i h; simp [h]
+    · rename_i h
+      unfold Policy.linkPasses Policy.forceSandbox Policy.forceCrossOrigin
+      simp only [hs.noFollow, hs.noFollowFQ, hs.noReferrer, hs.noReferrerFQ, hs.noBlank, hs.noCross, hs.noSandbox,
+        Bool.or_self, Bool.false_and, Bool.false_eq_true, ↓reduceIte, h]
+      by_cases hl : linkable el = true
+      · simp only [hl, ↓reduceIte, Bool.true_and]
+        by_cases hu : p.requireParseableURLs = true
+        · simp only [hu, ↓reduceIte]
+          cases mapMOpt (p.urlPassAttr el) (List.filter (fun a => (p.filterAttr el aps false a).isSome) attrs) <;> rfl
+        · have hu' : p.requireParseableURLs = false := by simpa using hu
+          simp [hu']
+      · have hl' : linkable el = false := by simpa using hl
+        simp [hl']
+
+/-- the model's URL positions are the specification's -/
+theorem isUrlPosition_of_urlKeyFor (el k : Bytes) (h : urlKeyFor el = some k) : isUrlPosition el k = true := by
+  unfold urlKeyFor at h
+  unfold isUrlPosition
+  by_cases h1 : isHrefElement el = true
+  · simp only [h1, ↓reduceIte, Option.some.injEq] at h
+    subst h
+    unfold isHrefElement at h1
+    simp only [beq_self_eq_true, Bool.true_and, h1, Bool.true_or]
+  · have h1' : isHrefElement el = false := by simpa using h1
+    simp only [h1', Bool.false_eq_true, ↓reduceIte] at h
+    by_cases h2 : isCiteElement el = true
+    · simp only [h2, ↓reduceIte, Option.some.injEq] at h
+      subst h
+      unfold isCiteElement at h2
+      simp only [beq_self_eq_true, Bool.true_and, h2, Bool.true_or, Bool.or_true]
+    · have h2' : isCiteElement el = false := by simpa using h2
+      simp only [h2', Bool.false_eq_true, ↓reduceIte] at h
+      by_cases h3 : isSrcElement el = true
+      · simp only [h3, ↓reduceIte, Option.some.injEq] at h
+        subst h
+        unfold isSrcElement at h3
+        simp only [beq_self_eq_true, Bool.true_and, h3, Bool.or_true]
+      · have h3' : isSrcElement el = false := by simpa using h3
+        simp [h3'] at h
+
+/-- **a URL in the specification's normal form is a fixed point of `validURL`**: accepted by `Spec.urlOk`,
+    printed as it is parsed, nothing for `TrimSpace` to remove, no white space or control character -/
+theorem validURL_of_spec (p : Policy) (v : Bytes) (hreq : p.requireParseableURLs = true) (hne : v ≠ [])
+    (hok : urlOk p v = true) (hpp : (Url.parse v).map Url.print = some v) (htrim : Css.trimSpace v = v)
+    (hws : hasWsOrCtl v = false) : p.validURL v = some v := by
+  obtain ⟨u, hu, hpr⟩ : ∃ u, Url.parse v = some u ∧ Url.print u = v := by
+    cases hp : Url.parse v with
+    | none => rw [hp] at hpp; cases hpp
+    | some u => rw [hp] at hpp; simp only [Option.map_some, Option.some.injEq] at hpp; exact ⟨u, rfl, hpp⟩
+  have hno : ∀ c : UInt8, c ≤ 32 → v.contains c = false := by
+    intro c hc
+    unfold hasWsOrCtl at hws
+    rw [List.any_eq_false] at hws
+    cases hcv : v.contains c with
+    | false => rfl
+    | true =>
+      have hmem := List.contains_iff_mem.mp hcv
+      have := hws c hmem
+      simp only [Bool.or_eq_true, decide_eq_true_eq, not_or] at this
+      exact absurd hc this.1
+  have hclass := Url.printed_class v u hu
+  rw [hpr] at hclass
+  unfold Policy.validURL
+  simp only [hreq, ↓reduceIte, htrim, hno 32 (by decide), hno 9 (by decide), hno 10 (by decide), Bool.or_self,
+    Bool.false_eq_true, hu]
+  unfold urlOk at hok
+  rw [hclass] at hok
+  by_cases hsch : u.scheme = []
+  · simp only [hsch, ↓reduceIte, Bool.and_eq_true] at hok
+    have hne' : v.isEmpty = false := by
+      cases v with
+      | nil => exact absurd rfl hne
+      | cons _ _ => rfl
+    simp only [hsch, List.isEmpty_nil, Bool.not_true, Bool.false_eq_true, ↓reduceIte, hok.1, hpr, hne', Bool.not_false,
+      Bool.and_self]
+  · have hsne : u.scheme.isEmpty = false := by
+      cases hs : u.scheme with
+      | nil => exact absurd hs hsch
+      | cons _ _ => rfl
+    simp only [hsch, ↓reduceIte, Bool.and_eq_true] at hok
+    simp only [hsne, Bool.not_false, ↓reduceIte]
+    obtain ⟨hok1, _⟩ := hok
+    cases hg : p.allowURLSchemes.get? u.scheme with
+    | none =>
+      rw [hg] at hok1
+      simp only at hok1 ⊢
+      simp only [hok1, ↓reduceIte, hpr]
+    | some checks =>
+      rw [hg] at hok1
+      simp only [hu, Bool.or_eq_true] at hok1 ⊢
+      by_cases hce : checks.isEmpty = true
+      · simp only [hce, ↓reduceIte, hpr]
+      · simp only [hce, Bool.false_eq_true, ↓reduceIte]
+        rcases hok1 with h | h
+        · exact absurd h hce
+        · simp only [h, ↓reduceIte, hpr]
+
+theorem mapMOpt_id {α} (f : α → Option (Option α)) : ∀ (l : List α), (∀ a ∈ l, f a = some (some a)) → mapMOpt f l = some l := by
+  intro l
+  induction l with
+  | nil => intro _; rfl
+  | cons x xs ih =>
+    intro h
+    unfold mapMOpt
+    rw [h x (by simp), ih (fun a ha => h a (by simp [ha]))]
+
+/-- the URL values of the document hold no white space or control character (a `data:` URL may, and is
+    then rewritten by the sanitiser: not covered here) -/
+def urlsPlain (ts : List Token) : Bool :=
+  ts.all fun t => t.attrs.all fun a => !isUrlPosition t.data a.key || !hasWsOrCtl a.val
+
+/-- the conforming start tag, URL checking included -/
+theorem conform_of_spec_start_url (p : Policy) (hs : UrlFilter p) (t : Token) (htt : t.tt = .start) (hwf : TokWF t)
+    (hex : p.elsAndAttrs.contains t.data = true) (h : conformingTag p t = true)
+    (hplain : (t.attrs.all fun a => !isUrlPosition t.data a.key || !hasWsOrCtl a.val) = true) : Conform p t := by
+  unfold conformingTag at h
+  simp only [Bool.and_eq_true, Bool.not_eq_true', Bool.or_eq_true, List.all_eq_true] at h
+  obtain ⟨⟨⟨_, hnr⟩, hbare⟩, hall⟩ := h
+  unfold TokWF at hwf
+  rw [htt] at hwf
+  obtain ⟨hname, hattrs⟩ := hwf
+  have hget : ∃ aps, p.elsAndAttrs.get? t.data = some aps := by
+    unfold Map.contains at hex
+    cases hg : p.elsAndAttrs.get? t.data with
+    | none => rw [hg] at hex; cases hex
+    | some aps => exact ⟨aps, rfl⟩
+  obtain ⟨aps, hget⟩ := hget
+  have hss : isScriptOrStyle t.data = false := by
+    unfold isRawTagName at hnr
+    unfold isScriptOrStyle
+    simp only [Bool.or_eq_false_iff] at hnr ⊢
+    exact ⟨hnr.1.1.1.1.2, hnr.1.1.1.2⟩
+  refine ⟨?_, ?_⟩
+  · unfold SegOK; rw [htt]; exact ⟨hname, hnr, hattrs⟩
+  · rw [htt]
+    refine ⟨hss, aps, ?_, ?_, ?_⟩
+    · unfold Policy.attrRulesFor; rw [hget]
+    · unfold Policy.cleanAttrs
+      split
+      · rfl
+      · rename_i hne
+        rw [urlFilter_sanitizeAttrs p hs]
+        have hfil : (t.attrs.filter fun a => (p.filterAttr t.data aps false a).isSome) = t.attrs := by
+          apply List.filter_eq_self.mpr
+          intro a ha
+          have hacc := hall a ha
+          exact filterAttr_of_accepts p t.data aps a hget (attrOK_key_no_nl a (hattrs a ha)) hacc.1.2
+        simp only [hfil, hne, Bool.false_eq_true, ↓reduceIte]
+        split
+        · rename_i hlu
+          simp only [Bool.and_eq_true] at hlu
+          apply mapMOpt_id
+          intro a ha
+          rw [urlPassAttr_eq p hs.noRewriter]
+          split
+          · rename_i k hk
+            split
+            · rename_i hak
+              have hak' : a.key = k := by simpa using hak
+              have hpos : isUrlPosition t.data a.key = true := by rw [hak']; exact isUrlPosition_of_urlKeyFor _ _ hk
+              have hacc := (hall a ha).2
+              simp only [hlu.2, hpos, Bool.and_self, Bool.true_eq_false, false_or, beq_iff_eq] at hacc
+              have hpl := List.all_eq_true.mp hplain a ha
+              simp only [hpos, Bool.not_true, Bool.false_or, Bool.not_eq_true'] at hpl
+              have hne' : a.val ≠ [] := by
+                intro hn; have := hacc.1.1.1; rw [hn] at this; cases this
+              rw [validURL_of_spec p a.val hlu.2 hne' hacc.1.1.2 hacc.1.2 hacc.2 hpl]
+              rfl
+            · rfl
+          · rfl
+        · rfl
+    · rcases hbare with hb | hb
+      · left; intro hn; rw [hn] at hb; cases hb
+      · right; exact hb
+
+/-- **C07 from the specification's side, URL checking included**: under a policy whose attribute handling is
+    filtering plus the URL pass, a canonical document that `Spec.conformingDoc` calls conforming, whose tags
+    name elements allowed by name and whose URL values hold no white space, is returned byte for byte — in
+    particular `Spec.urlOk` together with "printed as parsed" and "nothing to trim" is a sufficient
+    description of the URL values `validURL` leaves alone -/
+theorem C07_spec_conforming_urls (p : Policy) (hs : UrlFilter p.ensureInit) (inp : Bytes)
+    (hcan : canonicalDoc inp = true) (hconf : conformingDoc p.ensureInit (tokenize inp) = true)
+    (hexp : explicitDoc p.ensureInit (tokenize inp) = true) (hplain : urlsPlain (tokenize inp) = true) :
+    p.sanitizeCore inp = inp := by
+  have hren : renderAll (tokenize inp) = inp := by
+    unfold canonicalDoc at hcan
+    have hflat : ∀ ts : List Token, renderAll ts = ts.flatMap Token.render := by
+      intro ts
+      induction ts with
+      | nil => rfl
+      | cons t ts ih => simp [renderAll, ih]
+    rw [hflat]
+    exact (beq_iff_eq).mp hcan
+  have hc : ∀ t ∈ tokenize inp, Conform p.ensureInit t := by
+    intro t ht
+    unfold conformingDoc at hconf
+    simp only [Bool.and_eq_true, List.all_eq_true] at hconf
+    have hct := hconf.2 t ht
+    have hwf := tokenize_wf inp t ht
+    unfold explicitDoc at hexp
+    have hext := List.all_eq_true.mp hexp t ht
+    unfold urlsPlain at hplain
+    have hpl := List.all_eq_true.mp hplain t ht
+    cases htt : t.tt with
+    | text => exact ⟨by unfold SegOK; rw [htt]; trivial, by rw [htt]; trivial⟩
+    | start =>
+      rw [htt] at hct
+      have hex : p.ensureInit.elsAndAttrs.contains t.data = true := by
+        simp only [isTag, htt, Bool.or_eq_true, Bool.not_eq_true'] at hext
+        rcases hext with h | h
+        · exact absurd h (by decide)
+        · exact h
+      exact conform_of_spec_start_url p.ensureInit hs t htt hwf hex hct hpl
+    | end_ =>
+      rw [htt] at hct
+      simp only [Bool.and_eq_true, Bool.not_eq_true'] at hct
+      have hex : p.ensureInit.elsAndAttrs.contains t.data = true := by
+        simp only [isTag, htt, Bool.or_eq_true, Bool.not_eq_true'] at hext
+        rcases hext with h | h
+        · exact absurd h (by decide)
+        · exact h
+      exact conform_of_spec_end p.ensureInit t htt hwf hex hct.2
+    | selfClosing => rw [htt] at hct; cases hct
+    | comment => rw [htt] at hct; cases hct
+    | doctype => rw [htt] at hct; cases hct
+  have := C07_bytes p (tokenize inp) hc
+  rw [hren] at this
+  exact this
+
+/-- non-vacuity: a link with a checked URL, a relative image source -/
+example :
+    let p : Policy := { initialized := true, requireParseableURLs := true, allowRelativeURLs := true,
+                        allowURLSchemes := [(b!"https", [])],
+                        elsAndAttrs := [(b!"a", [(b!"href", [none])]), (b!"img", [(b!"src", [none])])] }
+    let d := b!"<a href=\"https://a.b/c?d=e#f\">t<img src=\"/x.png\"></a>"
+    canonicalDoc d = true ∧ conformingDoc p (tokenize d) = true ∧ explicitDoc p (tokenize d) = true ∧
+      urlsPlain (tokenize d) = true := by decide
 
 end BM.Props
